@@ -517,7 +517,7 @@ def _kwargs(case, step, wd):
 
 
 def run_chain(job):
-    """job = {"case": ..., "wd": str, "plan": {"p": int, "stage": str} | None, "seed": int, "light": bool}
+    """job = {"case": ..., "wd": str, "plan": {"p": int, "stage": str} | None, "seed": int, "light": bool, "keep": bool}
     runs in the current process (call it in a forked child).  Returns {"events": [...], "unplanned": [...], "raw": {...}}"""
     from vermouth.file_writer import DeferredFileWriter
     import polyply
@@ -572,6 +572,9 @@ def run_chain(job):
         f = wd / FILES[k]
         if f.exists():
             raw[k] = [l for l in f.read_text().splitlines() if l.strip() and not l.startswith(";")]
+    if not job.get("keep"):
+        import shutil
+        shutil.rmtree(wd, ignore_errors=True)      # thousands of scratch directories are slow to clean up later
     return {"events": rec.events, "unplanned": unplanned, "raw": raw}
 
 
